@@ -4,30 +4,568 @@ Equivalence of two applications on all requests is behavioural; decided is that 
 flat declaration is computed the way the property says:
 
   R10.a  re-binding covers every inner route in order: SubApplication.bind_all walks self.app.routes
-         directly, skips only NullRoute instances, appends rt.bind(app, **kwargs) for each, with
-         kwargs['prefix'] = self.prefix; add() inserts the returned list contiguously (R06.a);
-         cast_to_route_factory turns (prefix, Application) into SubApplication(*in_arg);
+         directly (loop or list comprehension), skips only NullRoute instances, yields rt.bind(app, **kw) once
+         for each, where the keyword dict carries 'prefix' = self.prefix on top of whatever the caller passed;
+         add() inserts the returned list contiguously (R06.a); cast_to_route_factory turns
+         (prefix, Application) into SubApplication(*in_arg);
   R10.b  prefixing composes: BoundRoute.pattern = prefix + route.pattern (the already-bound inner
          pattern), prefix defaults to '', SubApplication.prefix = prefix.rstrip('/');
   R10.c  middleware order (= R03.d), resource precedence at bind and request time (= R02.c), built-in
          _application is the outermost binding application;
-  R10.d  error handling comes from the application being bound into: render_error is taken from
-         app.error_handler when rebind_render_error (default True, no caller switches it off), checked
-         against the merged resources; dispatch consults self.error_handler;
+  R10.d  error handling comes from the application being bound into: the value that ends up in
+         self.render_error is app.error_handler's when rebind_render_error (default True, no caller switches it
+         off) and the route's otherwise; it is checked against the merged resources; dispatch consults
+         self.error_handler;
   R10.e  renderer stickiness plumbing: rebind_render flows SubApplication.__init__ (default False) -> add
          -> bind_all -> BoundRoute.__init__ under one keyword; explicit callable renders win; the render
          factory is that of the most recently bound application able to provide one; every bind keyword a
          caller writes is popped by BoundRoute.__init__.
 Declined: the equivalence itself; render_factory selection as a value computation.
+
+Values are recognised by role, not by the local that carries them: ``effects.Flow`` (reaching definitions on the
+CFG) gives the values that can flow into ``self.render`` / ``self.render_error`` with their path conditions, and
+resolves named temporaries (``unbound_render = self.unbound_route.render``) to what they stand for.
 """
 import ast
+import copy
 
 from ..core import AnalysisError, norm, short
+from ..cfg import expand_conds
+from ..effects import Flow, slot_key, effects_in
+from ..astutil import argn
+from .. import layers as layers_
 from . import chain
-from .c07 import bind_kwarg_agreement
-from .common import (cfg_of, fkey, conds, has_cond, cond_texts, stmts_of, walk_body, call_tail, call_name, returns_of, stmt_of, kwarg)
+from .common import (cfg_of, fkey, conds, has_cond, cond_texts, stmts_of, walk_body, call_tail, call_name, returns_of, stmt_of, kwarg,
+                     isinstance_test)
 
 APP, ROUTE = 'clastic.application', 'clastic.route'
+
+
+# ------------------------------------------------------------------------------------------------ helpers
+def _expr(text):
+    return ast.parse(text, mode='eval').body
+
+
+def _deref(fl, expr, at):
+    """Follow a local / self-attribute with a single reaching assignment to the assigned expression."""
+    for _ in range(6):
+        k = slot_key(expr)
+        if k is None:
+            break
+        d = fl.single_def(k, at)
+        if d is None:
+            break
+        expr, at = d.value, d.stmt
+    return expr, at
+
+
+def _kwarg_name(fi):
+    a = fi.node.args
+    return a.kwarg.arg if a.kwarg is not None else None
+
+
+def popped_flags(fi, key):
+    """(local names bound to ``<**kw>.pop(key, default)``, [pop calls]) in fi."""
+    kw = _kwarg_name(fi)
+    pops = [c for c in walk_body(fi.node) if isinstance(c, ast.Call) and isinstance(c.func, ast.Attribute) and c.func.attr == 'pop'
+            and norm(c.func.value) == kw and c.args and isinstance(c.args[0], ast.Constant) and c.args[0].value == key]
+    names = set()
+    for s in stmts_of(fi.node):
+        if isinstance(s, ast.Assign) and s.value in pops:
+            for t in s.targets:
+                if isinstance(t, ast.Name):
+                    names.add(t.id)
+    return names, pops
+
+
+def _is_flag(text, names, pops):
+    return text in names or text in set(norm(p) for p in pops)
+
+
+def _subst_name(expr, name, const):
+    class S(ast.NodeTransformer):
+        def visit_Name(self, n):
+            if n.id == name and isinstance(n.ctx, ast.Load):
+                return ast.copy_location(ast.Constant(value=const), n)
+            return n
+    return S().visit(copy.deepcopy(expr))
+
+
+class KwDict(object):
+    """Layer model of a keyword dict built by straight-line code before it is passed on with ``**``:
+    bottom -> top list of ('caller',) / ('src', text) / ('key', name, value expr, stmt); ``setdefault`` and
+    ``if k not in d: d[k] = v`` go to the bottom (an existing entry wins), ``d[k] = v`` / ``update`` / ``dict(d, k=v)`` on top."""
+
+    def __init__(self, fi, fl, var, use_stmts):
+        self.fi, self.fl, self.var = fi, fl, var
+        self.layers = []
+        self.stmts = []
+        kwp = _kwarg_name(fi)
+        if var == kwp:
+            self.layers.append(('caller',))
+        self._build(fi.node.body, kwp)
+        cfg = fl.cfg
+        for st in self.stmts:
+            for u in use_stmts:
+                if not cfg.must_pass(cfg.nodes_of(st), cfg.entry, cfg.nodes_of(u)):
+                    raise AnalysisError('%s: keyword dict %s is modified conditionally (%s)' % (fi.qualname, var, short(st, 60)))
+            loops = [l for l in stmts_of(fi.node) if isinstance(l, (ast.For, ast.While)) and st in stmts_of(l) and l is not st
+                     and not getattr(l, '_vt_expanded', False)]
+            if loops:
+                raise AnalysisError('%s: keyword dict %s is modified inside a loop' % (fi.qualname, var))
+
+    def _from_expr(self, e, kwp):
+        out = []
+        for l in layers_.layers_of_expr(e):
+            if l.kind == 'literal':
+                for k in l.keys:
+                    out.append(('key', k, l.values[k], l.node))
+            elif l.text == kwp:
+                out.append(('caller',))
+            elif isinstance(l.node, (ast.Dict,)) and not l.node.keys:
+                pass
+            else:
+                out.append(('src', l.text))
+        return out
+
+    def _default_stmt(self, st, var):
+        """``d.setdefault(K, V)`` / ``if K not in d: d[K] = V`` -> (K expr, V expr) or None."""
+        if isinstance(st, ast.Expr) and isinstance(st.value, ast.Call) and isinstance(st.value.func, ast.Attribute) and \
+                st.value.func.attr == 'setdefault' and norm(st.value.func.value) == var and len(st.value.args) == 2:
+            return st.value.args[0], st.value.args[1]
+        if isinstance(st, ast.If) and not st.orelse and len(st.body) == 1 and isinstance(st.test, ast.Compare) and len(st.test.ops) == 1 and \
+                isinstance(st.test.ops[0], ast.NotIn) and norm(st.test.comparators[0]) == var:
+            b = st.body[0]
+            if isinstance(b, ast.Assign) and len(b.targets) == 1 and isinstance(b.targets[0], ast.Subscript) and \
+                    norm(b.targets[0].value) == var and norm(b.targets[0].slice) == norm(st.test.left):
+                return st.test.left, b.value
+        return None
+
+    def _build(self, body, kwp):
+        var = self.var
+        for st in body:
+            d = self._default_stmt(st, var)
+            if d is not None:
+                k, v = d
+                if not isinstance(k, ast.Constant):
+                    raise AnalysisError('%s: computed key %s in keyword dict %s' % (self.fi.qualname, norm(k), var))
+                self.layers.insert(0, ('key', k.value, v, st))
+                self.stmts.append(st)
+                continue
+            if isinstance(st, ast.For) and isinstance(st.target, ast.Name) and isinstance(st.iter, (ast.Tuple, ast.List)) and \
+                    all(isinstance(e, ast.Constant) for e in st.iter.elts) and len(st.body) == 1 and not st.orelse:
+                d = self._default_stmt(st.body[0], var)
+                if d is not None and norm(d[0]) == st.target.id:
+                    for e in st.iter.elts:
+                        self.layers.insert(0, ('key', e.value, _subst_name(d[1], st.target.id, e.value), st))
+                    st._vt_expanded = True
+                    self.stmts.append(st)
+                    continue
+            if isinstance(st, ast.Assign) and any(norm(t) == var for t in st.targets):
+                self.layers = self._from_expr(st.value, kwp)
+                self.stmts.append(st)
+                continue
+            if isinstance(st, ast.Assign) and len(st.targets) == 1 and isinstance(st.targets[0], ast.Subscript) and norm(st.targets[0].value) == var:
+                k = st.targets[0].slice
+                if not isinstance(k, ast.Constant):
+                    raise AnalysisError('%s: computed key %s in keyword dict %s' % (self.fi.qualname, norm(k), var))
+                self.layers.append(('key', k.value, st.value, st))
+                self.stmts.append(st)
+                continue
+            if isinstance(st, ast.Expr) and isinstance(st.value, ast.Call) and isinstance(st.value.func, ast.Attribute) and \
+                    norm(st.value.func.value) == var and st.value.func.attr == 'update':
+                c = st.value
+                for a in c.args:
+                    self.layers.extend(self._from_expr(a, kwp))
+                for k in c.keywords:
+                    if k.arg is None:
+                        self.layers.extend(self._from_expr(k.value, kwp))
+                    else:
+                        self.layers.append(('key', k.arg, k.value, st))
+                self.stmts.append(st)
+                continue
+            # anything else that writes the dict is outside the model
+            for e in (effects_in(ast.Module(body=[st], type_ignores=[]), nested=False) if not isinstance(st, (ast.FunctionDef, ast.ClassDef)) else []):
+                if e.root == var:
+                    raise AnalysisError('%s: unmodelled write to keyword dict %s: %s' % (self.fi.qualname, var, short(e.node, 60)))
+
+    def lookup(self, key):
+        """('forced', value, stmt): a literal entry above everything the caller passed; ('default', value, stmt): a literal
+        entry below the caller's keywords and none above; ('caller', None, None): only the caller can supply it;
+        ('unknown', ...): an unmodelled source may supply it."""
+        top = None
+        for i in range(len(self.layers) - 1, -1, -1):
+            l = self.layers[i]
+            if l[0] == 'key' and l[1] == key:
+                top = i
+                break
+            if l[0] in ('src',):
+                return ('unknown', None, None)
+            if l[0] == 'caller':
+                # the caller may or may not pass it: look below for the default
+                for j in range(i - 1, -1, -1):
+                    m = self.layers[j]
+                    if m[0] == 'key' and m[1] == key:
+                        return ('default', m[2], m[3])
+                    if m[0] in ('src', 'caller'):
+                        return ('unknown', None, None)
+                return ('caller', None, None)
+        if top is None:
+            return ('absent', None, None)
+        return ('forced', self.layers[top][2], self.layers[top][3])
+
+
+def _walk_all(fnode):
+    for st in fnode.body:
+        for n in ast.walk(st):
+            yield n
+
+
+def _enclosing_iteration(mod, node, fnode):
+    cur = mod.parents.get(node)
+    while cur is not None and cur is not fnode:
+        if isinstance(cur, (ast.For, ast.ListComp, ast.GeneratorExp, ast.SetComp, ast.DictComp, ast.While)):
+            return cur
+        cur = mod.parents.get(cur)
+    return None
+
+
+def _strip_copy(e):
+    """list(x) / tuple(x) iterate x in x's order."""
+    while isinstance(e, ast.Call) and isinstance(e.func, ast.Name) and e.func.id in ('list', 'tuple') and len(e.args) == 1 and not e.keywords:
+        e = e.args[0]
+    return e
+
+
+# ------------------------------------------------------------------------------------------------ R10.a
+def _r10a(rep, app, route):
+    ba = app.func('SubApplication.bind_all')
+    fl = Flow(ba)
+    bcfg = fl.cfg
+    fors = [s for s in stmts_of(ba.node) if isinstance(s, (ast.For, ast.While))]
+    comps = [n for n in walk_body(ba.node) if isinstance(n, (ast.ListComp, ast.GeneratorExp, ast.SetComp, ast.DictComp))]
+    its = fors + comps
+    it = its[0] if len(its) == 1 else None
+    it_expr = None
+    if isinstance(it, ast.For):
+        it_expr = it.iter
+    elif isinstance(it, (ast.ListComp, ast.GeneratorExp)) and len(it.generators) == 1 and not it.generators[0].is_async:
+        it_expr = it.generators[0].iter
+    it_text = fl.text(_strip_copy(it_expr), stmt_of(app, it_expr)) if it_expr is not None else None
+    ok = it_text == 'self.app.routes'
+    rep.check('R10.a', fkey(ba, 'iterates inner routes'), ok, 'walks self.app.routes directly (inner order preserved)' if ok else
+              'bind_all does not iterate self.app.routes directly: %s' % (it_text if it_text else [short(getattr(x, 'iter', x), 50) for x in its]), app,
+              it if isinstance(it, ast.stmt) else (stmt_of(app, it) if it is not None else ba.node))
+    if not ok:
+        return
+    is_loop = isinstance(it, ast.For)
+    rt = norm(it.target if is_loop else it.generators[0].target)
+    binds = [c for c in walk_body(ba.node) if isinstance(c, ast.Call) and isinstance(c.func, ast.Attribute) and c.func.attr == 'bind']
+    b = binds[0] if len(binds) == 1 else None
+    kwv = None
+    ok = b is not None and norm(b.func.value) == rt and len(b.args) == 1 and norm(b.args[0]) == ba.params()[1] and \
+        len(b.keywords) == 1 and b.keywords[0].arg is None and isinstance(b.keywords[0].value, ast.Name) and \
+        _enclosing_iteration(app, b, ba.node) is it
+    where = b if b is not None else (it if is_loop else stmt_of(app, it))
+    rets = returns_of(ba)
+    appends = []
+    if ok:
+        kwv = b.keywords[0].value.id
+        if is_loop:
+            # the bound route reaches the returned list through exactly one append in the loop
+            rv = norm(rets[0].value) if len(rets) == 1 and isinstance(rets[0].value, ast.Name) else None
+            growers = [e for e in effects_in(ba.node) if e.root == rv and e.kind == 'mutcall']
+            appends = [e.node for e in growers if e.method == 'append' and len(e.node.args) == 1]
+            ok = rv is not None and len(growers) == 1 and len(appends) == 1 and stmt_of(app, appends[0]) in stmts_of(it)
+            if ok:
+                a0 = appends[0].args[0]
+                lv = fl.leaves(a0, stmt_of(app, appends[0]))
+                ok = len(lv) == 1 and lv[0].value is b
+                rdef = fl.single_def(rv, rets[0])
+                ok = ok and rdef is not None and isinstance(rdef.value, ast.List) and not rdef.value.elts
+        else:
+            # the comprehension (a list, or a generator materialised by list()) is what is returned
+            ok = it.elt is b and bool(rets)
+            for r in rets:
+                v, _ = _deref(fl, r.value, r)
+                ok = ok and _strip_copy(v) is it and (isinstance(it, ast.ListComp) or v is not it)
+    rep.check('R10.a', fkey(ba, 'append rt.bind(app, **kwargs)'), ok, 'each inner route is re-bound to the embedding application with the bind keywords' if ok else
+              'bind_all does not append rt.bind(app, **kwargs) for each inner route', app, where)
+    if not ok:
+        return
+    if is_loop:
+        ast_ = stmt_of(app, appends[0])
+        cs = conds(ba, ast_)
+        ok = len(cs) == 1 and cs[0][1] is False and isinstance_test(cs[0][0], rt, 'NullRoute')
+        jumps = [s for s in stmts_of(it) if isinstance(s, (ast.Continue, ast.Break))]
+        for j in jumps:
+            jc = conds(ba, j)
+            ok = ok and isinstance(j, ast.Continue) and len(jc) == 1 and jc[0][1] is True and isinstance_test(jc[0][0], rt, 'NullRoute')
+        rep.check('R10.a', fkey(ba, 'skips only the null route'), ok, 'only NullRoute instances are skipped' if ok else
+                  'routes are skipped under other conditions than isinstance(rt, NullRoute): %s' % '; '.join(cond_texts(cs)), app, appends[0])
+        ap_nodes = bcfg.nodes_of(ast_)
+        ok = not (set(ap_nodes) & bcfg.reach([m for n in ap_nodes for m in bcfg.succ[n]], avoid=bcfg.nodes_of(it)))
+        rep.check('R10.a', fkey(ba, 'once per route'), ok, 'each inner route is re-bound once' if ok else 'an inner route can be appended twice', app, appends[0])
+        use = it
+    else:
+        cs = [(t, p) for t, p in expand_conds([(i, True) for i in it.generators[0].ifs]) if not isinstance(t, ast.BoolOp)]
+        ok = len(cs) == 1 and cs[0][1] is False and isinstance_test(cs[0][0], rt, 'NullRoute')
+        rep.check('R10.a', fkey(ba, 'skips only the null route'), ok, 'only NullRoute instances are skipped' if ok else
+                  'routes are skipped under other conditions than isinstance(rt, NullRoute): %s' % '; '.join(cond_texts(cs)), app, stmt_of(app, it))
+        rep.ok('R10.a', fkey(ba, 'once per route'), 'each inner route is re-bound once (one element per item of a single generator)', app, stmt_of(app, it))
+        use = stmt_of(app, it)
+    kd = KwDict(ba, fl, kwv, [use])
+    how, v, st = kd.lookup('prefix')
+    ok = how == 'forced' and norm(v) == 'self.prefix'
+    rep.check('R10.a', fkey(ba, 'prefix keyword'), ok, "the bind keywords carry prefix = self.prefix (over anything the caller passed) before any route is re-bound" if ok else
+              'the embedding prefix is not passed to the re-bound routes (%s %s)' % (how, short(v, 40) if v is not None else ''), app, st or ba.node)
+    return kd
+
+
+def _r10a_cast(rep, app):
+    crf = app.func('cast_to_route_factory')
+    fl = Flow(crf)
+    p0 = crf.params()[0]
+    sub = [r for r in returns_of(crf) if isinstance(r.value, ast.Call) and call_name(r.value) == 'SubApplication']
+    ok = len(sub) == 1 and len(sub[0].value.args) == 1 and not sub[0].value.keywords and norm(sub[0].value.args[0]) == '*%s' % p0 and \
+        any(p is True and txt == 'isinstance(%s[1], Application)' % p0 for txt, p, _ in fl.cond_texts(conds(crf, sub[0])))
+    rep.check('R10.a', fkey(crf), ok, '(prefix, Application) tuples become SubApplication(prefix, app)' if ok else
+              'cast_to_route_factory no longer maps (prefix, Application) to SubApplication(*entry)', app, crf.node)
+
+
+def _add_view(app):
+    """(fi, flow, route-factory local, [bind_all call statements], [bind call statements], ** dict name)"""
+    ad = app.func('Application.add')
+    fl = Flow(ad)
+    rfv = [norm(s.targets[0]) for s in stmts_of(ad.node) if isinstance(s, ast.Assign) and isinstance(s.value, ast.Call)
+           and call_name(s.value) == 'cast_to_route_factory' and len(s.targets) == 1 and isinstance(s.targets[0], ast.Name)]
+    if len(rfv) != 1:
+        raise AnalysisError('Application.add: the route factory (result of cast_to_route_factory) is not bound to one local')
+    rf = rfv[0]
+    ball, bone = [], []
+    for c in walk_body(ad.node):
+        if not isinstance(c, ast.Call):
+            continue
+        ft = fl.text(c.func, stmt_of(app, c))
+        if ft in ('%s.bind_all' % rf, "getattr(%s, 'bind_all', None)" % rf):
+            ball.append(c)
+        elif ft == '%s.bind' % rf:
+            bone.append(c)
+    return ad, fl, rf, ball, bone
+
+
+def _r10a_add(rep, app):
+    ad, fl, rf, ball, bone = _add_view(app)
+    ok = False
+    if len(ball) == 1:
+        want = "getattr(%s, 'bind_all', None)" % rf
+        ok = any(p is True and want in txt for txt, p, _ in fl.cond_texts(conds(ad, ball[0])))
+        # the result is what gets inserted
+        st = stmt_of(app, ball[0])
+        ok = ok and isinstance(st, ast.Assign) and st.value is ball[0]
+    rep.check('R10.a', fkey(ad, 'uses bind_all'), ok, 'add() expands route factories through bind_all' if ok else 'add() does not use bind_all for sub-applications', app, ad.node)
+
+
+# ------------------------------------------------------------------------------------------------ R10.b
+def _single_leaf(fl, slot):
+    lv = fl.leaves(_expr(slot), 'exit')
+    if len(lv) == 1 and not lv[0].opaque:
+        return lv[0]
+    return None
+
+
+def _r10b(rep, app, route):
+    bi = route.func('BoundRoute.__init__')
+    fl = Flow(bi)
+    ps = bi.params()
+    kw = _kwarg_name(bi)
+    pnames, ppops = popped_flags(bi, 'prefix')
+    lf = _single_leaf(fl, 'self.pattern')
+    ok = lf is not None and isinstance(lf.value, ast.BinOp) and isinstance(lf.value.op, ast.Add) and \
+        _is_flag(norm(lf.value.left), pnames, ppops) and fl.text(lf.value.right, lf.stmt) == '%s.pattern' % ps[1]
+    rep.check('R10.b', fkey(bi, 'self.pattern'), ok, 'bound pattern = prefix + (already bound) inner pattern, so prefixes compose by depth' if ok else
+              'BoundRoute.pattern is not prefix + route.pattern: %s' % (short(lf.value) if lf else None), route, lf.stmt if lf else bi.node)
+    ok = len(ppops) == 1 and len(ppops[0].args) == 2 and isinstance(ppops[0].args[1], ast.Constant) and ppops[0].args[1].value == ''
+    rep.check('R10.b', fkey(bi, 'prefix default'), ok, "prefix comes from the bind keyword, default ''" if ok else 'prefix is not kwargs.pop(\'prefix\', \'\')', route, bi.node)
+    si = app.func('SubApplication.__init__')
+    sfl = Flow(si)
+    lf = _single_leaf(sfl, 'self.prefix')
+    ok = lf is not None and sfl.text(lf.value, lf.stmt) == "%s.rstrip('/')" % si.params()[1]
+    rep.check('R10.b', fkey(si, 'self.prefix'), ok, "prefix is stored without a trailing slash ('/' merges at root level)" if ok else
+              "SubApplication.prefix is not prefix.rstrip('/')", app, si.node)
+    lf = _single_leaf(sfl, 'self.app')
+    ok = lf is not None and sfl.text(lf.value, lf.stmt) == si.params()[2]
+    rep.check('R10.b', fkey(si, 'self.app'), ok, 'the embedded application is kept as given' if ok else 'SubApplication.app is not the given application', app, si.node)
+    lf = _single_leaf(fl, 'self.unbound_route')
+    ok = lf is not None and fl.text(lf.value, lf.stmt) == "getattr(%s, 'unbound_route', %s)" % (ps[1], ps[1])
+    rep.check('R10.b', fkey(bi, 'unbound_route'), ok, 'endpoint/render always come from the original unbound route, at any depth' if ok else
+              'unbound_route is not carried through re-binding', route, bi.node)
+    lf = _single_leaf(fl, 'self.bound_apps')
+    ok = lf is not None and fl.text(lf.value, lf.stmt) == "getattr(%s, 'bound_apps', []) + [%s]" % (ps[1], ps[2])
+    rep.check('R10.b', fkey(bi, 'bound_apps'), ok, 'bound_apps grows inner -> outer; [-1] is the serving application' if ok else
+              'bound_apps is not extended with the binding application at the end', route, bi.node)
+
+
+# ------------------------------------------------------------------------------------------------ R10.d
+def _receivers(fi, fl, attrs):
+    out = []
+    for n in walk_body(fi.node):
+        if isinstance(n, ast.Attribute) and n.attr in attrs and isinstance(n.ctx, ast.Load):
+            out.append(fl.text(n.value, stmt_of(fi.mod, n)))
+    return out
+
+
+def _r10d(rep, app, route):
+    repo = rep.repo
+    bi = route.func('BoundRoute.__init__')
+    fl = Flow(bi)
+    ps = bi.params()
+    fnames, fpops = popped_flags(bi, 'rebind_render_error')
+    lv = fl.leaves(_expr('self.render_error'), 'exit')
+
+    def flag_is(leaf, pol):
+        return any(p is pol and _is_flag(norm(t), fnames, fpops) for t, p in leaf.conds)
+    from_app = [l for l in lv if not l.opaque and flag_is(l, True)]
+    from_route = [l for l in lv if not l.opaque and flag_is(l, False)]
+    ok = len(lv) == 2 and len(from_app) == 1 and len(from_route) == 1 and \
+        fl.text(from_app[0].value, from_app[0].stmt) in ("getattr(%s.error_handler, 'render_error', None)" % ps[2], '%s.error_handler.render_error' % ps[2]) and \
+        fl.text(from_route[0].value, from_route[0].stmt) == '%s.render_error' % ps[1]
+    rep.check('R10.d', fkey(bi, 'render_error source'), ok, 'render_error is the binding application\'s error handler\'s (unless rebind_render_error is off)' if ok else
+              'render_error is not taken from app.error_handler when re-binding: %s' % [short(l.value, 60) for l in lv], route,
+              (lv[0].stmt if lv and lv[0].stmt is not None and lv[0].stmt != 'exit' else bi.node))
+    ok = len(fpops) == 1 and len(fpops[0].args) == 2 and isinstance(fpops[0].args[1], ast.Constant) and fpops[0].args[1].value is True
+    rep.check('R10.d', fkey(bi, 'rebind_render_error default'), ok, 'rebind_render_error defaults to True' if ok else 'rebind_render_error does not default to True', route, bi.node)
+    offs = []
+    for m in repo.all_internal_modules():
+        for n in ast.walk(m.tree):
+            if isinstance(n, ast.keyword) and n.arg == 'rebind_render_error':
+                offs.append((m, n))
+            if isinstance(n, ast.Constant) and n.value == 'rebind_render_error' and m.name != ROUTE:
+                offs.append((m, n))
+    rep.check('R10.d', 'clastic::rebind_render_error callers', not offs, 'no caller in the package switches rebind_render_error off' if not offs else
+              'rebind_render_error is passed at %s' % [(m.relpath, n.value.lineno if hasattr(n, 'value') and hasattr(n.value, 'lineno') else '?') for m, n in offs], route)
+    stores = fl.defs.get('self.render_error', [])
+    ok = bool(lv) and not any(l.opaque for l in lv) and all(d.kind == 'assign' and d.idx is None for d in stores)
+    rep.check('R10.d', fkey(bi, 'self.render_error'), ok, 'the selected render_error is stored on the bound route' if ok else 'self.render_error is not the selected renderer', route, bi.node)
+    cre = [c for c in walk_body(bi.node) if isinstance(c, ast.Call) and call_name(c) == 'check_render_error']
+    sel = fl.aliases('self.render_error')
+    res = fl.aliases('self.resources')
+    ok = len(cre) == 1 and len(cre[0].args) == 2 and not cre[0].keywords and norm(cre[0].args[0]) in sel and norm(cre[0].args[1]) in res and \
+        any(p is True and isinstance(t, ast.Call) and call_name(t) == 'callable' and len(t.args) == 1 and norm(t.args[0]) in sel for t, p in conds(bi, cre[0]))
+    rep.check('R10.d', fkey(bi, 'check_render_error'), ok, 'the error renderer\'s arguments are checked against the merged resources at bind time' if ok else
+              'render_error is not checked against self.resources at bind time', route, bi.node)
+    d = app.func('Application.dispatch')
+    rc = _receivers(d, Flow(d), ('not_found_type', 'uncaught_to_response', 'method_not_allowed_type'))
+    if not rc:
+        raise AnalysisError('Application.dispatch: no use of an error handler (not_found_type / uncaught_to_response) found')
+    ok = all(r == 'self.error_handler' for r in rc)
+    rep.check('R10.d', fkey(d, 'err_handler'), ok, 'uncaught errors and 404/405 types come from the serving application\'s error handler' if ok else
+              'dispatch does not consult self.error_handler: %s' % sorted(set(rc)), app, d.node)
+    hs = route.func('NullRoute.handle_sentinel_condition')
+    rc = _receivers(hs, Flow(hs), ('not_found_type', 'method_not_allowed_type'))
+    if not rc:
+        raise AnalysisError('NullRoute.handle_sentinel_condition: no use of an error handler found')
+    ok = all(r == '_application.error_handler' for r in rc)
+    rep.check('R10.d', fkey(hs, 'err_handler'), ok, 'the null route asks the serving application for its error types' if ok else
+              'the null route does not use _application.error_handler: %s' % sorted(set(rc)), route, hs.node)
+
+
+# ------------------------------------------------------------------------------------------------ R10.e
+def _r10e_plumbing(rep, app, route, kd):
+    bi = route.func('BoundRoute.__init__')
+    si = app.func('SubApplication.__init__')
+    ba = app.func('SubApplication.bind_all')
+    names, pops = popped_flags(bi, 'rebind_render')
+    ok = len(pops) == 1 and len(pops[0].args) == 2 and isinstance(pops[0].args[1], ast.Constant) and pops[0].args[1].value is True
+    rep.check('R10.e', fkey(bi, 'rebind_render default'), ok, 'plain routes re-bind their render argument by default' if ok else 'rebind_render does not default to True', route, bi.node)
+    a = si.node.args
+    dflt = dict(zip([x.arg for x in a.args][len(a.args) - len(a.defaults):], a.defaults))
+    sfl = Flow(si)
+    lf = _single_leaf(sfl, 'self.rebind_render')
+    ok = isinstance(dflt.get('rebind_render'), ast.Constant) and dflt['rebind_render'].value is False and \
+        lf is not None and sfl.text(lf.value, lf.stmt) == 'rebind_render'
+    rep.check('R10.e', fkey(si, 'rebind_render'), ok, 'embedded routes keep their own renderers unless re-binding is requested (default False)' if ok else
+              'SubApplication(rebind_render=False) default / storage changed', app, si.node)
+    if kd is None:
+        raise AnalysisError('SubApplication.bind_all: bind keyword dict not identified (see R10.a)')
+    how, v, st = kd.lookup('rebind_render')
+    ok = how == 'default' and norm(v) == 'self.rebind_render'
+    rep.check('R10.e', fkey(ba, 'rebind_render forwarded'), ok, 'bind_all forwards self.rebind_render (a caller\'s value wins)' if ok else
+              'bind_all does not forward self.rebind_render (%s %s)' % (how, short(v, 40) if v is not None else ''), app, st or ba.node)
+    ad, afl, rf, ball, bone = _add_view(app)
+    calls = ball + bone
+    kws = set(norm(k.value) for c in calls for k in c.keywords if k.arg is None)
+    if len(kws) != 1 or not calls:
+        raise AnalysisError('Application.add: the bind calls do not pass one keyword dict (%s)' % sorted(kws))
+    akd = KwDict(ad, afl, kws.pop(), [stmt_of(app, c) for c in calls])
+    how, v, st = akd.lookup('rebind_render')
+    ok = how == 'default' and afl.text(v, st) == "getattr(%s, 'rebind_render', True)" % rf
+    rep.check('R10.e', fkey(ad, 'rebind_render default'), ok, 'add() defaults rebind_render from the route factory' if ok else
+              'add() does not default rebind_render from the factory (%s %s)' % (how, short(v, 40) if v is not None else ''), app, st or ad.node)
+
+
+def _r10e_render(rep, app, route):
+    bi = route.func('BoundRoute.__init__')
+    fl = Flow(bi)
+    ps = bi.params()
+    names, pops = popped_flags(bi, 'rebind_render')
+    ur = _single_leaf(fl, 'self.unbound_route')
+    if ur is None:
+        raise AnalysisError('BoundRoute.__init__: self.unbound_route has no single definition')
+    ur_render = '%s.render' % fl.text(ur.value, ur.stmt)
+    prev_render = '%s.render' % ps[1]
+    lv = fl.leaves(_expr('self.render'), 'exit')
+    ctx = dict((id(l), fl.cond_texts(l.conds)) for l in lv)
+
+    def cond(l, text, pol):
+        return any(p is pol and txt == text for txt, p, _ in ctx[id(l)])
+    is_explicit = 'callable(%s)' % ur_render
+    is_prev = 'callable(%s)' % prev_render
+    expl = [l for l in lv if cond(l, is_explicit, True)]
+    ok = len(expl) == 1 and not expl[0].opaque and fl.text(expl[0].value, expl[0].stmt) == ur_render
+    rep.check('R10.e', fkey(bi, 'explicit render wins'), ok, 'an explicit callable render always takes precedence' if ok else
+              'explicit callable renders no longer take precedence', route, bi.node)
+    fac = [l for l in lv if l not in expl and not l.opaque and isinstance(l.value, ast.Call) and len(l.value.args) == 1 and not l.value.keywords
+           and slot_key(l.value.func) is not None and fl.text(l.value.args[0], l.stmt) == ur_render]
+
+    def bind_render_values(t):
+        if isinstance(t, ast.BoolOp) and isinstance(t.op, ast.Or):
+            return set(fl.text(v, fl.stmt_of(t)) for v in t.values)
+        return None
+    want = set(['%s is _noop_render' % prev_render, 'not callable(%s)' % prev_render])
+
+    def is_bind_render(vals):
+        return vals is not None and len(vals) == 3 and want <= vals and any(_is_flag(x, names, pops) for x in vals - want)
+    ok = len(fac) == 1 and cond(fac[0], is_explicit, False) and \
+        any(p is True and is_bind_render(bind_render_values(t)) for t, p in fac[0].conds)
+    rep.check('R10.e', fkey(bi, 'factory branch'), ok, 'a render argument is re-interpreted by a render factory only when re-binding applies' if ok else
+              'the render-factory branch is not conditioned on bind_render', route, fac[0].stmt if fac else bi.node)
+    carry = [l for l in lv if l not in expl and l not in fac]
+    keep = [l for l in carry if not l.opaque and fl.text(l.value, l.stmt) == prev_render and cond(l, is_prev, True)]
+    noop = [l for l in carry if not l.opaque and norm(l.value) == '_noop_render' and cond(l, is_prev, False)]
+    ok = len(carry) == 2 and len(keep) == 1 and len(noop) == 1
+    rep.check('R10.e', fkey(bi, 'carry-through branch'), ok, 'otherwise the previously bound renderer is carried through' if ok else
+              'the carry-through branch of render selection changed: %s' % [short(l.value, 40) for l in carry], route,
+              carry[0].stmt if carry and isinstance(carry[0].stmt, ast.AST) else bi.node)
+    ors = [n for n in walk_body(bi.node) if isinstance(n, ast.BoolOp) and isinstance(n.op, ast.Or) and
+           any(_is_flag(x, names, pops) for x in bind_render_values(n))]
+    ok = len(ors) == 1 and is_bind_render(bind_render_values(ors[0]))
+    rep.check('R10.e', fkey(bi, 'bind_render'), ok, 're-binding applies when requested or when nothing callable was bound yet' if ok else
+              'bind_render is not "rebind_render or route.render is _noop_render or not callable(route.render)"', route, ors[0] if ors else bi.node)
+    ok = False
+    if len(fac) == 1:
+        d = fl.single_def(slot_key(fac[0].value.func), fac[0].stmt)
+        v = d.value if d is not None else None
+        if isinstance(v, ast.Call) and call_name(v) == 'first' and len(v.args) >= 1 and norm(kwarg(v, 'key')) == 'callable':
+            a0, at0 = _deref(fl, v.args[0], d.stmt)
+            if isinstance(a0, ast.Call) and call_name(a0) == 'reversed' and len(a0.args) == 1:
+                l0, _ = _deref(fl, a0.args[0], at0)
+                ok = isinstance(l0, ast.ListComp) and len(l0.generators) == 1 and fl.text(l0.generators[0].iter, fl.stmt_of(l0)) == 'self.bound_apps'
+    rep.check('R10.e', fkey(bi, 'render factory'), ok, 'the render factory is that of the most recently bound (outermost) application that has one' if ok else
+              'render factory selection is not first(reversed([...bound_apps...]), key=callable)', route, bi.node)
+    stores = fl.defs.get('self.render', [])
+    ok = bool(lv) and not any(l.opaque for l in lv) and all(d.kind == 'assign' and d.idx is None for d in stores)
+    rep.check('R10.e', fkey(bi, 'self.render'), ok, 'the selected renderer is stored and used for the chain' if ok else 'self.render is not the selected renderer', route, bi.node)
 
 
 def run(rep):
@@ -43,189 +581,62 @@ def run(rep):
     rep.rule('R10.e', 'kwarg-name agreement and render selection branches')
 
     # ---- R10.a -----------------------------------------------------------
-    ba = app.func('SubApplication.bind_all')
-    bcfg = cfg_of(ba)
-    loops = [s for s in stmts_of(ba.node) if isinstance(s, ast.For)]
-    ok = len(loops) == 1 and norm(loops[0].iter) == 'self.app.routes'
-    rep.check('R10.a', fkey(ba, 'iterates inner routes'), ok, 'walks self.app.routes directly (inner order preserved)' if ok else
-              'bind_all does not iterate self.app.routes directly: %s' % (norm(loops[0].iter) if loops else None), app, loops[0] if loops else ba.node)
-    if not ok:
-        return
-    lp = loops[0]
-    rt = norm(lp.target)
-    rets = returns_of(ba)
-    rv = norm(rets[0].value) if len(rets) == 1 else None
-    apps = [c for c in ast.walk(lp) if isinstance(c, ast.Call) and norm(c.func) == '%s.append' % rv]
-    ok = len(apps) == 1
-    if ok:
-        v = apps[0].args[0]
-        if isinstance(v, ast.Name):
-            srcs = [s.value for s in lp.body if isinstance(s, ast.Assign) and norm(s.targets[0]) == v.id]
-            v = srcs[0] if len(srcs) == 1 else v
-        ok = isinstance(v, ast.Call) and norm(v.func) == '%s.bind' % rt and norm(v.args[0]) == ba.params()[1] and \
-            any(k.arg is None and norm(k.value) == 'kwargs' for k in v.keywords)
-    rep.check('R10.a', fkey(ba, 'append rt.bind(app, **kwargs)'), ok, 'each inner route is re-bound to the embedding application with the bind keywords' if ok else
-              'bind_all does not append rt.bind(app, **kwargs) for each inner route', app, apps[0] if apps else lp)
-    if apps:
-        cs = conds(ba, apps[0])
-        skips = [t for t, p in cs]
-        ok = len(cs) == 1 and cs[0][1] is False and norm(cs[0][0]) == 'isinstance(%s, NullRoute)' % rt
-        conts = [s for s in ast.walk(lp) if isinstance(s, (ast.Continue, ast.Break))]
-        ok = ok and len(conts) == 1 and isinstance(conts[0], ast.Continue)
-        rep.check('R10.a', fkey(ba, 'skips only the null route'), ok, 'only NullRoute instances are skipped' if ok else
-                  'routes are skipped under other conditions than isinstance(rt, NullRoute): %s' % '; '.join(cond_texts(cs)), app, apps[0])
-        # exactly one append per iteration
-        iter_nodes = [n.id for n in bcfg.nodes if n.kind == 'iter' and n.stmt is lp]
-        ap_nodes = bcfg.nodes_of(stmt_of(app, apps[0]))
-        ok = not (set(ap_nodes) & bcfg.reach([m for n in ap_nodes for m in bcfg.succ[n]], avoid=bcfg.nodes_of(lp)))
-        rep.check('R10.a', fkey(ba, 'once per route'), ok, 'each inner route is re-bound once' if ok else 'an inner route can be appended twice', app, apps[0])
-    pf = [s for s in stmts_of(ba.node) if isinstance(s, ast.Assign) and norm(s.targets[0]) == "kwargs['prefix']"]
-    ok = len(pf) == 1 and norm(pf[0].value) == 'self.prefix' and bcfg.must_pass(bcfg.nodes_of(pf[0]), bcfg.entry, bcfg.nodes_of(lp))
-    rep.check('R10.a', fkey(ba, 'prefix keyword'), ok, "kwargs['prefix'] = self.prefix before any route is re-bound" if ok else
-              'the embedding prefix is not passed to the re-bound routes', app, pf[0] if pf else ba.node)
-    crf = app.func('cast_to_route_factory')
-    sub = [r for r in returns_of(crf) if isinstance(r.value, ast.Call) and call_name(r.value) == 'SubApplication']
-    ok = len(sub) == 1 and norm(sub[0].value.args[0]) == '*%s' % crf.params()[0] and \
-        has_cond(conds(crf, sub[0]), lambda t: norm(t) == 'isinstance(%s[1], Application)' % crf.params()[0], True)
-    rep.check('R10.a', fkey(crf), ok, '(prefix, Application) tuples become SubApplication(prefix, app)' if ok else
-              'cast_to_route_factory no longer maps (prefix, Application) to SubApplication(*entry)', app, crf.node)
-    ad = app.func('Application.add')
-    rfv = [norm(s.targets[0]) for s in stmts_of(ad.node) if isinstance(s, ast.Assign) and isinstance(s.value, ast.Call)
-           and call_name(s.value) == 'cast_to_route_factory']
-    rf = rfv[0] if rfv else 'rf'
-    ok = any(isinstance(s, ast.Assign) and isinstance(s.value, ast.Call) and norm(s.value.func) == '%s.bind_all' % rf and
-             has_cond(conds(ad, s), lambda t: "getattr(%s, 'bind_all', None)" % rf in norm(t), True) for s in stmts_of(ad.node))
-    from .c06 import check_running_index
-    check_running_index(rep, 'R10.a')
-    rep.check('R10.a', fkey(ad, 'uses bind_all'), ok, 'add() expands route factories through bind_all' if ok else 'add() does not use bind_all for sub-applications', app, ad.node)
-    rep.floor('R10.a', 7)
+    def bind_all_rules():
+        return _r10a(rep, app, route)
+    kd = rep.guard(bind_all_rules)
+
+    def cast_rule():
+        _r10a_cast(rep, app)
+    rep.guard(cast_rule)
+
+    def running_index():
+        from .c06 import check_running_index
+        check_running_index(rep, 'R10.a')
+    rep.guard(running_index)
+
+    def add_uses_bind_all():
+        _r10a_add(rep, app)
+    rep.guard(add_uses_bind_all)
+    rep.guard(rep.floor, 'R10.a', 7)
 
     # ---- R10.b -----------------------------------------------------------
-    bi = route.func('BoundRoute.__init__')
-    ps = bi.params()
-    pt = [s for s in stmts_of(bi.node) if isinstance(s, ast.Assign) and norm(s.targets[0]) == 'self.pattern']
-    ok = len(pt) == 1 and norm(pt[0].value) == 'prefix + %s.pattern' % ps[1]
-    rep.check('R10.b', fkey(bi, 'self.pattern'), ok, 'bound pattern = prefix + (already bound) inner pattern, so prefixes compose by depth' if ok else
-              'BoundRoute.pattern is not prefix + route.pattern: %s' % (short(pt[0].value) if pt else None), route, pt[0] if pt else bi.node)
-    pp = [s for s in stmts_of(bi.node) if isinstance(s, ast.Assign) and norm(s.targets[0]) == 'prefix']
-    ok = len(pp) == 1 and norm(pp[0].value) == "kwargs.pop('prefix', '')"
-    rep.check('R10.b', fkey(bi, 'prefix default'), ok, "prefix comes from the bind keyword, default ''" if ok else 'prefix is not kwargs.pop(\'prefix\', \'\')', route, bi.node)
-    si = app.func('SubApplication.__init__')
-    sp = [s for s in stmts_of(si.node) if isinstance(s, ast.Assign) and norm(s.targets[0]) == 'self.prefix']
-    ok = len(sp) == 1 and norm(sp[0].value) == "%s.rstrip('/')" % si.params()[1]
-    rep.check('R10.b', fkey(si, 'self.prefix'), ok, "prefix is stored without a trailing slash ('/' merges at root level)" if ok else
-              "SubApplication.prefix is not prefix.rstrip('/')", app, si.node)
-    sa = [s for s in stmts_of(si.node) if isinstance(s, ast.Assign) and norm(s.targets[0]) == 'self.app']
-    ok = len(sa) == 1 and norm(sa[0].value) == si.params()[2]
-    rep.check('R10.b', fkey(si, 'self.app'), ok, 'the embedded application is kept as given' if ok else 'SubApplication.app is not the given application', app, si.node)
-    ur = [s for s in stmts_of(bi.node) if isinstance(s, ast.Assign) and 'self.unbound_route' in [norm(t) for t in s.targets]]
-    ok = len(ur) == 1 and norm(ur[0].value) == "getattr(%s, 'unbound_route', %s)" % (ps[1], ps[1])
-    rep.check('R10.b', fkey(bi, 'unbound_route'), ok, 'endpoint/render always come from the original unbound route, at any depth' if ok else
-              'unbound_route is not carried through re-binding', route, bi.node)
-    bapps = [s for s in stmts_of(bi.node) if isinstance(s, ast.Assign) and norm(s.targets[0]) == 'self.bound_apps']
-    ok = len(bapps) == 1 and norm(bapps[0].value) == "getattr(%s, 'bound_apps', []) + [%s]" % (ps[1], ps[2])
-    rep.check('R10.b', fkey(bi, 'bound_apps'), ok, 'bound_apps grows inner -> outer; [-1] is the serving application' if ok else
-              'bound_apps is not extended with the binding application at the end', route, bi.node)
-    rep.floor('R10.b', 6)
+    def prefix_rules():
+        _r10b(rep, app, route)
+    rep.guard(prefix_rules)
+    rep.guard(rep.floor, 'R10.b', 6)
 
     # ---- R10.c -----------------------------------------------------------
-    chain.check_merge_order(rep, 'R10.c')
-    chain.check_request_layers(rep, 'R10.c')
-    from .c07 import check_slash_plumbing
-    check_slash_plumbing(rep, 'R10.c')
-    rep.floor('R10.c', 24)
+    def merge_order():
+        chain.check_merge_order(rep, 'R10.c')
+
+    def request_layers():
+        chain.check_request_layers(rep, 'R10.c')
+
+    def slash_plumbing():
+        from .c07 import check_slash_plumbing
+        check_slash_plumbing(rep, 'R10.c')
+    rep.guard(merge_order)
+    rep.guard(request_layers)
+    rep.guard(slash_plumbing)
+    rep.guard(rep.floor, 'R10.c', 24)
 
     # ---- R10.d -----------------------------------------------------------
-    rr = [s for s in stmts_of(bi.node) if isinstance(s, ast.Assign) and norm(s.targets[0]) == 'render_error']
-    from_app = [s for s in rr if has_cond(conds(bi, s), lambda t: norm(t) == 'rebind_render_error', True)]
-    from_route = [s for s in rr if has_cond(conds(bi, s), lambda t: norm(t) == 'rebind_render_error', False)]
-    ok = len(from_app) == 1 and norm(from_app[0].value) in ("getattr(%s.error_handler, 'render_error', None)" % ps[2], '%s.error_handler.render_error' % ps[2]) and \
-        len(from_route) == 1 and norm(from_route[0].value) == '%s.render_error' % ps[1]
-    rep.check('R10.d', fkey(bi, 'render_error source'), ok, 'render_error is the binding application\'s error handler\'s (unless rebind_render_error is off)' if ok else
-              'render_error is not taken from app.error_handler when re-binding', route, bi.node)
-    pop = [c for c in walk_body(bi.node) if isinstance(c, ast.Call) and norm(c.func) == 'kwargs.pop' and isinstance(c.args[0], ast.Constant)
-           and c.args[0].value == 'rebind_render_error']
-    ok = len(pop) == 1 and isinstance(pop[0].args[1], ast.Constant) and pop[0].args[1].value is True
-    rep.check('R10.d', fkey(bi, 'rebind_render_error default'), ok, 'rebind_render_error defaults to True' if ok else 'rebind_render_error does not default to True', route, bi.node)
-    offs = []
-    for m in repo.all_internal_modules():
-        for n in ast.walk(m.tree):
-            if isinstance(n, ast.keyword) and n.arg == 'rebind_render_error':
-                offs.append((m, n))
-            if isinstance(n, ast.Constant) and n.value == 'rebind_render_error' and m.name != ROUTE:
-                offs.append((m, n))
-    rep.check('R10.d', 'clastic::rebind_render_error callers', not offs, 'no caller in the package switches rebind_render_error off' if not offs else
-              'rebind_render_error is passed at %s' % [(m.relpath, n.value.lineno if hasattr(n, 'value') and hasattr(n.value, 'lineno') else '?') for m, n in offs], route)
-    st = [s for s in stmts_of(bi.node) if isinstance(s, ast.Assign) and norm(s.targets[0]) == 'self.render_error']
-    ok = len(st) == 1 and norm(st[0].value) == 'render_error'
-    rep.check('R10.d', fkey(bi, 'self.render_error'), ok, 'the selected render_error is stored on the bound route' if ok else 'self.render_error is not the selected renderer', route, bi.node)
-    cre = [c for c in walk_body(bi.node) if isinstance(c, ast.Call) and call_name(c) == 'check_render_error']
-    ok = len(cre) == 1 and [norm(a) for a in cre[0].args] == ['render_error', 'self.resources'] and \
-        has_cond(conds(bi, cre[0]), lambda t: norm(t) == 'callable(render_error)', True)
-    rep.check('R10.d', fkey(bi, 'check_render_error'), ok, 'the error renderer\'s arguments are checked against the merged resources at bind time' if ok else
-              'render_error is not checked against self.resources at bind time', route, bi.node)
-    d = app.func('Application.dispatch')
-    eh = [s for s in stmts_of(d.node) if isinstance(s, ast.Assign) and norm(s.targets[0]) == 'err_handler']
-    ok = len(eh) == 1 and norm(eh[0].value) == 'self.error_handler'
-    rep.check('R10.d', fkey(d, 'err_handler'), ok, 'uncaught errors and 404/405 types come from the serving application\'s error handler' if ok else
-              'dispatch does not consult self.error_handler', app, d.node)
-    hs = route.func('NullRoute.handle_sentinel_condition')
-    ok = any(isinstance(s, ast.Assign) and norm(s.value) == '_application.error_handler' for s in stmts_of(hs.node))
-    rep.check('R10.d', fkey(hs, 'err_handler'), ok, 'the null route asks the serving application for its error types' if ok else
-              'the null route does not use _application.error_handler', route, hs.node)
-    rep.floor('R10.d', 7)
+    def error_handling_rules():
+        _r10d(rep, app, route)
+    rep.guard(error_handling_rules)
+    rep.guard(rep.floor, 'R10.d', 7)
 
     # ---- R10.e -----------------------------------------------------------
-    popped, written = bind_kwarg_agreement(rep, 'R10.e')
-    d_ = popped.get('rebind_render')
-    ok = isinstance(d_, ast.Constant) and d_.value is True
-    rep.check('R10.e', fkey(bi, 'rebind_render default'), ok, 'plain routes re-bind their render argument by default' if ok else 'rebind_render does not default to True', route, bi.node)
-    a = si.node.args
-    dflt = dict(zip([x.arg for x in a.args][len(a.args) - len(a.defaults):], a.defaults))
-    ok = isinstance(dflt.get('rebind_render'), ast.Constant) and dflt['rebind_render'].value is False and \
-        any(isinstance(s, ast.Assign) and norm(s.targets[0]) == 'self.rebind_render' and norm(s.value) == 'rebind_render' for s in stmts_of(si.node))
-    rep.check('R10.e', fkey(si, 'rebind_render'), ok, 'embedded routes keep their own renderers unless re-binding is requested (default False)' if ok else
-              'SubApplication(rebind_render=False) default / storage changed', app, si.node)
-    ok = any(isinstance(c, ast.Call) and norm(c.func) == 'kwargs.setdefault' and isinstance(c.args[0], ast.Constant) and c.args[0].value == 'rebind_render'
-             and norm(c.args[1]) == 'self.rebind_render' for c in walk_body(ba.node))
-    rep.check('R10.e', fkey(ba, 'rebind_render forwarded'), ok, 'bind_all forwards self.rebind_render' if ok else 'bind_all does not forward self.rebind_render', app, ba.node)
-    ok = any(isinstance(c, ast.Call) and norm(c.func) == 'kwargs.setdefault' and isinstance(c.args[0], ast.Constant) and c.args[0].value == 'rebind_render'
-             and norm(c.args[1]) == "getattr(%s, 'rebind_render', True)" % rf for c in walk_body(ad.node))
-    rep.check('R10.e', fkey(ad, 'rebind_render default'), ok, 'add() defaults rebind_render from the route factory' if ok else
-              'add() does not default rebind_render from the factory', app, ad.node)
-    # render selection branches
-    rs = [s for s in stmts_of(bi.node) if isinstance(s, ast.Assign) and norm(s.targets[0]) == 'render']
-    is_explicit = lambda t: norm(t) == 'callable(unbound_route.render)'
-    expl = [s for s in rs if has_cond(conds(bi, s), is_explicit, True)]
-    ok = len(expl) == 1 and norm(expl[0].value) == 'unbound_route.render'
-    rep.check('R10.e', fkey(bi, 'explicit render wins'), ok, 'an explicit callable render always takes precedence' if ok else
-              'explicit callable renders no longer take precedence', route, bi.node)
-    fac = [s for s in rs if isinstance(s.value, ast.Call) and norm(s.value.func) == 'render_factory']
-    ok = len(fac) == 1 and norm(fac[0].value.args[0]) == 'unbound_route.render' and \
-        has_cond(conds(bi, fac[0]), is_explicit, False) and any('bind_render' in norm(t) and p is True for t, p in conds(bi, fac[0]))
-    rep.check('R10.e', fkey(bi, 'factory branch'), ok, 'a render argument is re-interpreted by a render factory only when re-binding applies' if ok else
-              'the render-factory branch is not conditioned on bind_render', route, fac[0] if fac else bi.node)
-    carry = [s for s in rs if s not in expl and s not in fac]
-    # (conditional expressions are normalised to if/else by the loader)
-    is_prev = lambda t: norm(t) == 'callable(%s.render)' % ps[1]
-    keep = [s for s in carry if norm(s.value) == '%s.render' % ps[1] and has_cond(conds(bi, s), is_prev, True)]
-    noop = [s for s in carry if norm(s.value) == '_noop_render' and has_cond(conds(bi, s), is_prev, False)]
-    ok = len(carry) == 2 and len(keep) == 1 and len(noop) == 1
-    rep.check('R10.e', fkey(bi, 'carry-through branch'), ok, 'otherwise the previously bound renderer is carried through' if ok else
-              'the carry-through branch of render selection changed', route, carry[0] if carry else bi.node)
-    br = [s for s in stmts_of(bi.node) if isinstance(s, ast.Assign) and norm(s.targets[0]) == 'bind_render']
-    ok = len(br) == 1 and isinstance(br[0].value, ast.BoolOp) and isinstance(br[0].value.op, ast.Or) and \
-        set(norm(v) for v in br[0].value.values) == {'rebind_render', '%s.render is _noop_render' % ps[1], 'not callable(%s.render)' % ps[1]}
-    rep.check('R10.e', fkey(bi, 'bind_render'), ok, 're-binding applies when requested or when nothing callable was bound yet' if ok else
-              'bind_render is not "rebind_render or route.render is _noop_render or not callable(route.render)"', route, br[0] if br else bi.node)
-    rf = [s for s in stmts_of(bi.node) if isinstance(s, ast.Assign) and norm(s.targets[0]) == 'render_factory' and isinstance(s.value, ast.Call)
-          and call_name(s.value) == 'first']
-    ok = len(rf) == 1 and norm(rf[0].value.args[0]) == 'reversed(render_factory_list)' and norm(kwarg(rf[0].value, 'key')) == 'callable'
-    rfl = [s for s in stmts_of(bi.node) if isinstance(s, ast.Assign) and norm(s.targets[0]) == 'render_factory_list']
-    ok = ok and len(rfl) == 1 and isinstance(rfl[0].value, ast.ListComp) and norm(rfl[0].value.generators[0].iter) == 'self.bound_apps'
-    rep.check('R10.e', fkey(bi, 'render factory'), ok, 'the render factory is that of the most recently bound (outermost) application that has one' if ok else
-              'render factory selection is not first(reversed([...bound_apps...]), key=callable)', route, bi.node)
-    sr = [s for s in stmts_of(bi.node) if isinstance(s, ast.Assign) and norm(s.targets[0]) == 'self.render']
-    ok = len(sr) == 1 and norm(sr[0].value) == 'render'
-    rep.check('R10.e', fkey(bi, 'self.render'), ok, 'the selected renderer is stored and used for the chain' if ok else 'self.render is not the selected renderer', route, bi.node)
-    rep.floor('R10.e', 12)
+    def kwarg_agreement():
+        from .c07 import bind_kwarg_agreement
+        bind_kwarg_agreement(rep, 'R10.e')
+
+    def render_plumbing():
+        _r10e_plumbing(rep, app, route, kd)
+
+    def render_selection():
+        _r10e_render(rep, app, route)
+    rep.guard(kwarg_agreement)
+    rep.guard(render_plumbing)
+    rep.guard(render_selection)
+    rep.guard(rep.floor, 'R10.e', 12)
